@@ -2,6 +2,7 @@ import DadiVerif.Lemmas.Mass
 import DadiVerif.Lemmas.Marginal2
 import DadiVerif.Lemmas.Pivots
 import DadiVerif.Lemmas.Marginal3
+import DadiVerif.Lemmas.Positivity
 /-!
 # C04 — mass leaves only via fixation/loss; frozen marginals exact; frozen+migration rejected
 
@@ -284,5 +285,16 @@ example : GridOk #[0, 1/4, 1/2, 1] := by
   rcases this with rfl | rfl | rfl <;> norm_num [Array.getD]
 example : ([0, 1/3] : List ℚ).all (· == 0) = false ∧ ([0, 1/3] : List ℚ).all (· == 1) = false :=
   C04_interior_not_corner [0, 1/3] (1/3) (by simp) (by norm_num) (by norm_num)
+
+/-- **The mutation influx is the documented amount.**  For every dimension 1–5 and every population k the increment the generated
+    `_inject_mutations_{d}D` adds at the unit index e_k is  dt/x_k[1] · θ0/2 · 2^d / ((x_k[2] − x_k[0]) · Π_{l≠k} x_l[1])  — i.e. a point
+    mass dt·θ0/2 of new mutations at frequency x_k[1] in population k and frequency 0 elsewhere, divided by the trapezoid cell volume
+    (x_k[2]−x_k[0])/2 · Π_{l≠k} x_l[1]/2 and by x_k[1]. -/
+theorem C04_inject_canonical (d k : ℕ) (hd1 : 1 ≤ d) (hd : d ≤ 5) (hk : k < d) (dt θ : ℚ) (g : ℕ → ℕ → ℚ) :
+    injectAmt d k dt θ g = some (injectCanon d k dt θ g) :=
+  injectAmt_eq_canon d k hd1 hd hk dt θ g
+
+/-- …and it is non-negative for dt ≥ 0, θ0 ≥ 0 on grids whose second point is positive: injection never removes mass -/
+theorem C04_inject_nonneg : type_of% @injectFn_nonneg := @injectFn_nonneg
 
 end DadiVerif
